@@ -70,7 +70,8 @@ def run(chk: Check, model):
     chk.floor("C06.callers", "step-like call sites", len(sites), 7)
     for q, attr, n, fi in sites:
         homes = model.home_functions(q)  # a helper extracted later counts as part of the functions that call it
-        alloweds = [ALLOWED_SITES.get(h) for h in homes]
+        # a helper referenced by the parent of an allowed nested function stands for that nested function
+        alloweds = [ALLOWED_SITES.get(h) or next((v for k, v in ALLOWED_SITES.items() if k.startswith(h + ".") and attr in v[0]), None) if q != h else ALLOWED_SITES.get(h) for h in homes]
         allowed = alloweds[0] if alloweds else None
         ok = bool(alloweds) and all(a is not None and attr in a[0] for a in alloweds)
         chk.add("C06.callers", f"{q}:{attr}", ok,
